@@ -2,6 +2,7 @@
 C05 - Kekule and aromatic forms describe the same molecule; conversions are stable.  DESIGN 2/C05.
 """
 import itertools
+import random as _random
 
 from hypothesis import strategies as st
 
@@ -316,6 +317,45 @@ def check_case(case, rec):
     if orders(c) != orders(a):
         rec.fail('round-trip', f'{str(a)!r} -> {str(b)!r} -> {str(c)!r}: aromatic form not restored', sig=sig_mcb)
         return
+    # ---- the same conversions on ONE object with derived values read in between (caches warm from the other representation):
+    # kekule -> [reads] -> kekule (no-op) -> [reads] -> thiele -> [reads] -> kekule -> [reads] -> thiele must give the same forms
+    w = raw.copy()
+    wr = _random.Random(case['seed'])
+
+    def warm():
+        from chython import smarts
+        for k in range(wr.randrange(4)):
+            what = wr.randrange(6)
+            try:
+                if what == 0:
+                    str(w)
+                elif what == 1:
+                    w._cython_compiled_structure
+                elif what == 2:
+                    list(smarts('[#6,#7]~[#6]').get_mapping(w))[:1]
+                elif what == 3:
+                    w.kekule() if not any(x.order == 4 for *_, x in w.bonds()) else None
+                elif what == 4:
+                    w.atoms_order, w.sssr
+                else:
+                    next(iter(w.enumerate_kekule()), None) if not any(x.order == 4 for *_, x in w.bonds()) else None
+            except InvalidAromaticRing:
+                pass
+    ok, _ = rec.guard('warm-sequence', lambda: (w.kekule(), warm(), w.thiele(fix_tautomers=False)))
+    if not ok:
+        return
+    if orders(w) != orders(a) or per_atom(w) != per_atom(a):
+        rec.fail('warm-sequence', f'{label!r}: kekule(), reads, thiele() on one object gives {str(w)!r}, on fresh copies {str(a)!r}',
+                 sig='thiele' + sig_mcb)
+        return
+    ok, _ = rec.guard('warm-sequence', lambda: (warm(), w.kekule(), warm(), w.thiele(fix_tautomers=False)))
+    if not ok:
+        return
+    if orders(w) != orders(a) or per_atom(w) != per_atom(a):
+        rec.fail('warm-sequence', f'{label!r}: aromatic form not restored by kekule(), reads, thiele() on one object: {str(w)!r} vs '
+                                  f'{str(a)!r}', sig='round-trip' + sig_mcb)
+        return
+    rec.count('warm-sequences')
     # ---- default thiele (tautomer fixing): composition preserved, idempotent
     t = mk.copy()
     t.thiele()
